@@ -1,6 +1,280 @@
-/- C07 — property theorems.  Stub. -/
+/-
+C07 — property theorems.  Curved-edge entries are unique, sit on real block edges, are kept
+exactly when valid, the first definition wins, and every entry is written in the direction its
+data was specified for — on all 12 positions and for faces used as given, inverted, shifted or
+re-oriented.  Tables (`beamOrder`, `c07EdgeDir`, `c07OpBeams`, `edgePairs`, `c07Reversing`,
+`c07Kinds`) are regenerated from the source on every run.
+-/
 import CBV.Model.C07
+import CBV.Lemmas.C07
+import CBV.Lemmas.C07Face
+import Mathlib.Tactic.Ring
+import Mathlib.Tactic.Linarith
+import Mathlib.Algebra.Order.Field.Rat
 
 namespace CBV.C07
+
+open CBV.C10 (Face)
+
+/-! ### the 12 positions: tables of the current source -/
+
+/-- blockMesh corner numbering: corner `c` has local coordinates (x, y, z) ∈ {0,1}³ -/
+def coord (c : Nat) : Bool × Bool × Bool :=
+  (c % 4 == 1 || c % 4 == 2, c % 4 == 2 || c % 4 == 3, c ≥ 4)
+
+/-- two corners are joined by an edge of the hexahedron iff they differ in exactly one coordinate -/
+def isHexEdge (c1 c2 : Nat) : Bool :=
+  let a := coord c1; let b := coord c2
+  ((if a.1 != b.1 then 1 else 0) + (if a.2.1 != b.2.1 then 1 else 0) + (if a.2.2 != b.2.2 then 1 else 0)) == 1
+
+/-- a list of directed beams is good when every beam is the directed pair of its slot
+    (bottom i: i → i+1 mod 4, top i: i+4 → (i+1 mod 4)+4, side i: i → i+4) and every one of the
+    12 slots occurs exactly once -/
+def beamsOk (bs : List (Nat × Nat × Nat)) : Bool :=
+  bs.all (fun x => decide (x.2.2 < 12) && (slotPair x.2.2 == (x.1, x.2.1))) &&
+  (List.range 12).all (fun s => (bs.filter (fun x => x.2.2 == s)).length == 1) &&
+  bs.length == 12
+
+def directedOk : Bool :=
+  match directedBeams with
+  | some bs => beamsOk bs
+  | none => false
+
+/-- **all 12 positions**: on the tables of the current source, `add_from_operation` (with
+    `Operation.edges`, `Frame.get_all_beams`, `tools.edge_map`) visits every slot exactly once and
+    pairs its datum with the directed corner pair the datum is specified for — including the
+    closing edges 3 → 0 and 7 → 4. -/
+theorem T_C07_direction_table : directedOk = true := by decide
+
+/-- the 12 directed slot pairs are exactly the 12 edges of the blockMesh hexahedron, each once,
+    and they are pairs `Frame.add_beam` accepts (generated `EDGE_PAIRS`) -/
+theorem T_C07_slots_are_hex_edges :
+    (∀ s ∈ List.range 12, isHexEdge (slotPair s).1 (slotPair s).2 = true ∧
+      validPair (slotPair s).1 (slotPair s).2 = true) ∧
+    ((List.range 12).map (fun s => (min (slotPair s).1 (slotPair s).2, max (slotPair s).1 (slotPair s).2))).Nodup ∧
+    ∀ a ∈ List.range 8, ∀ b ∈ List.range 8, isHexEdge a b = true →
+      ∃ s ∈ List.range 12, slotPair s = (a, b) ∨ slotPair s = (b, a) := by decide
+
+/-- the model's frame (12 `add_beam` calls + enumeration) gives what `Operation.edges
+    .get_all_beams()` gives on a probe operation of the current source -/
+theorem T_C07_frame_table : allBeams = some CBV.Gen.c07OpBeams := by decide
+
+/-- the kinds whose `EdgeData` class overrides `reverse()` are the direction-dependent kinds of the
+    model, and the factory knows exactly the model's kinds -/
+theorem T_C07_kind_tables :
+    CBV.Gen.c07Reversing = (Kind.all.filter Kind.dirDep).map Kind.name ∧
+    (∀ k ∈ Kind.all, k.name ∈ CBV.Gen.c07Kinds.map (·.1)) ∧
+    CBV.Gen.c07Kinds.length = Kind.all.length := by decide
+
+theorem directed_some : ∃ bs, directedBeams = some bs ∧ beamsOk bs = true := by
+  have h := T_C07_direction_table
+  unfold directedOk at h
+  split at h
+  · exact ⟨_, by assumption, h⟩
+  · cases h
+
+theorem beamsOk_mem {bs : List (Nat × Nat × Nat)} (h : beamsOk bs = true) {x : Nat × Nat × Nat} (hx : x ∈ bs) :
+    x.2.2 < 12 ∧ slotPair x.2.2 = (x.1, x.2.1) := by
+  unfold beamsOk at h
+  simp only [Bool.and_eq_true, List.all_eq_true, decide_eq_true_eq, beq_iff_eq] at h
+  exact h.1.1 x hx
+
+theorem beamsOk_slot {bs : List (Nat × Nat × Nat)} (h : beamsOk bs = true) {s : Nat} (hs : s < 12) :
+    ∃ x ∈ bs, x.2.2 = s := by
+  unfold beamsOk at h
+  simp only [Bool.and_eq_true, List.all_eq_true, beq_iff_eq] at h
+  have h1 := h.1.2 s (List.mem_range.mpr hs)
+  have : 0 < (bs.filter (fun x => x.2.2 == s)).length := by omega
+  obtain ⟨x, hx⟩ := List.exists_mem_of_length_pos this
+  rw [List.mem_filter] at hx
+  exact ⟨x, hx.1, by simpa using hx.2⟩
+
+/-- the request a slot of an operation stands for -/
+def slotReq (o : ROp) (s : Nat) : Entry :=
+  ⟨o.verts.getD (slotPair s).1 0, o.verts.getD (slotPair s).2 0, o.data.getD s lineDatum⟩
+
+theorem mem_reqsOfOp {bs : List (Nat × Nat × Nat)} (h : beamsOk bs = true) {o : ROp} {e : Entry} :
+    e ∈ reqsOfOp bs o ↔ ∃ s, s < 12 ∧ e = slotReq o s := by
+  unfold reqsOfOp slotReq
+  constructor
+  · intro he
+    rw [List.mem_map] at he
+    obtain ⟨x, hx, rfl⟩ := he
+    obtain ⟨h1, h2⟩ := beamsOk_mem h hx
+    exact ⟨x.2.2, h1, by rw [h2]⟩
+  · rintro ⟨s, hs, rfl⟩
+    obtain ⟨x, hx, rfl⟩ := beamsOk_slot h hs
+    rw [List.mem_map]
+    obtain ⟨_, h2⟩ := beamsOk_mem h hx
+    exact ⟨x, hx, by rw [h2]⟩
+
+theorem mem_allReqs {bs : List (Nat × Nat × Nat)} (h : beamsOk bs = true) {ops : List ROp} {e : Entry} :
+    e ∈ allReqs bs ops ↔ ∃ o ∈ ops, ∃ s, s < 12 ∧ e = slotReq o s := by
+  unfold allReqs
+  rw [List.mem_flatMap]
+  constructor
+  · rintro ⟨o, ho, he⟩; exact ⟨o, ho, (mem_reqsOfOp h).mp he⟩
+  · rintro ⟨o, ho, he⟩; exact ⟨o, ho, (mem_reqsOfOp h).mpr he⟩
+
+/-! ### the edges section, for every list of operations (all assemblies, all histories of `add`) -/
+
+/-- **unique**: no two entries join the same two vertices (in either order) -/
+theorem T_C07_unique (pos : Nat → V3) (bs : List (Nat × Nat × Nat)) (ops : List ROp) :
+    (asmEdges pos bs ops).Pairwise (fun e f => samePair e.v1 e.v2 f.v1 f.v2 = false) :=
+  run_distinct (List.Pairwise.nil)
+
+/-- **on a block edge, correctly directed**: every entry is the datum of one of the 12 slots of
+    some operation, written between that operation's vertices at the slot's directed corner pair
+    (first vertex = corner the datum starts from), and that pair is an edge of the hexahedron -/
+theorem T_C07_direction (pos : Nat → V3) (bs : List (Nat × Nat × Nat)) (hbs : beamsOk bs = true)
+    (ops : List ROp) (e : Entry) (he : e ∈ asmEdges pos bs ops) :
+    ∃ o ∈ ops, ∃ s, s < 12 ∧ e.v1 = o.verts.getD (slotPair s).1 0 ∧ e.v2 = o.verts.getD (slotPair s).2 0 ∧
+      e.d = o.data.getD s lineDatum ∧ isHexEdge (slotPair s).1 (slotPair s).2 = true := by
+  rcases run_mem_src he with h | ⟨h, _⟩
+  · cases h
+  · obtain ⟨o, ho, s, hs, rfl⟩ := (mem_allReqs hbs).mp h
+    exact ⟨o, ho, s, hs, rfl, rfl, rfl, (T_C07_slots_are_hex_edges.1 s (List.mem_range.mpr hs)).1⟩
+
+theorem T_C07_onblock (pos : Nat → V3) (bs : List (Nat × Nat × Nat)) (hbs : beamsOk bs = true)
+    (ops : List ROp) (e : Entry) (he : e ∈ asmEdges pos bs ops) :
+    ∃ o ∈ ops, ∃ a b, isHexEdge a b = true ∧ e.v1 = o.verts.getD a 0 ∧ e.v2 = o.verts.getD b 0 := by
+  obtain ⟨o, ho, s, _, h1, h2, _, h4⟩ := T_C07_direction pos bs hbs ops e he
+  exact ⟨o, ho, _, _, h4, h1, h2⟩
+
+/-- **omitted**: no entry is a line, joins two vertices closer than TOL, or is an arc whose three
+    points are collinear within TOL (what `Edge.is_valid` / `ArcEdgeBase.is_valid` reject) -/
+theorem T_C07_omitted (pos : Nat → V3) (bs : List (Nat × Nat × Nat)) (ops : List ROp) (e : Entry)
+    (he : e ∈ asmEdges pos bs ops) :
+    e.d.kind ≠ .line ∧ ¬ (V3.norm2 (pos e.v1 - pos e.v2) < tol2) ∧
+      ∀ p, e.d.kind.isArc = true → e.d.third = some p →
+        V3.norm2 (V3.cross (pos e.v1 - p) (pos e.v2 - p)) > tol2 := by
+  rcases run_mem_src he with h | ⟨_, hv⟩
+  · cases h
+  · unfold valid at hv
+    split at hv
+    · cases hv
+    · split at hv
+      · cases hv
+      · refine ⟨by assumption, by assumption, ?_⟩
+        intro p hp ht
+        rw [hp, ht] at hv
+        simpa using hv
+
+/-- **kept, exactly once**: a slot whose datum is valid (non-line, non-zero length, non-collinear)
+    has exactly one entry on its vertex pair -/
+theorem T_C07_kept (pos : Nat → V3) (bs : List (Nat × Nat × Nat)) (hbs : beamsOk bs = true)
+    (ops : List ROp) (o : ROp) (ho : o ∈ ops) (s : Nat) (hs : s < 12) (hv : valid pos (slotReq o s) = true) :
+    ∃ e ∈ asmEdges pos bs ops, e.same (slotReq o s) = true ∧
+      ∀ f ∈ asmEdges pos bs ops, f.same (slotReq o s) = true → f = e := by
+  have hm : slotReq o s ∈ allReqs bs ops := (mem_allReqs hbs).mpr ⟨o, ho, s, hs, rfl⟩
+  obtain ⟨e, he, hse⟩ := run_kept_mem (pos := pos) (es := []) hm hv
+  refine ⟨e, he, hse, ?_⟩
+  intro f hf hsf
+  have hd : Distinct (asmEdges pos bs ops) := run_distinct (List.Pairwise.nil)
+  exact distinct_unique hd hf he (Entry.same_trans hsf (by rw [Entry.same_comm]; exact hse))
+
+/-- **first definition wins** (request level): in any sequence of `EdgeList.add` calls, a valid
+    request that no earlier valid request shares its vertex pair with is written as it is — its own
+    data, its own direction -/
+theorem T_C07_first_wins (pos : Nat → V3) (pre post : List Entry) (r : Entry) (hv : valid pos r = true)
+    (hpre : ∀ q ∈ pre, valid pos q = true → q.same r = false) :
+    r ∈ run pos (pre ++ r :: post) [] :=
+  run_first_wins hv (by intro q hq; cases hq) hpre
+
+/-- … and conversely every entry is the first valid request for its vertex pair: later
+    re-definitions (by the same or another operation, in either direction) are ignored -/
+theorem T_C07_entries_are_first (pos : Nat → V3) (rs : List Entry) (e : Entry) (he : e ∈ run pos rs []) :
+    ∃ pre post, rs = pre ++ e :: post ∧ valid pos e = true ∧
+      ∀ q ∈ pre, valid pos q = true → q.same e = false := by
+  rcases run_char he with h | ⟨pre, post, h1, h2, _, h4⟩
+  · cases h
+  · exact ⟨pre, post, h1, h2, h4⟩
+
+/-- **first definition wins** (operation level): when no earlier operation validly defines the
+    vertex pair of a valid slot and the operation itself defines it only there, the slot's datum is
+    the entry, in the slot's direction — whatever later operations say -/
+theorem T_C07_first_wins_op (pos : Nat → V3) (bs : List (Nat × Nat × Nat)) (hbs : beamsOk bs = true)
+    (pre post : List ROp) (o : ROp) (s : Nat) (hs : s < 12) (hv : valid pos (slotReq o s) = true)
+    (hpre : ∀ q ∈ allReqs bs pre, valid pos q = true → q.same (slotReq o s) = false)
+    (hown : ∀ t, t < 12 → valid pos (slotReq o t) = true → (slotReq o t).same (slotReq o s) = true →
+      slotReq o t = slotReq o s) :
+    slotReq o s ∈ asmEdges pos bs (pre ++ o :: post) := by
+  unfold asmEdges allReqs
+  rw [List.flatMap_append, List.flatMap_cons, run_append, run_append]
+  apply run_mono
+  apply run_sole ((mem_reqsOfOp hbs).mpr ⟨s, hs, rfl⟩) hv
+  · intro q hq
+    rcases run_mem_src hq with h | ⟨h, hvq⟩
+    · cases h
+    · exact hpre q h hvq
+  · intro q hq hvq hsq
+    obtain ⟨t, ht, rfl⟩ := (mem_reqsOfOp hbs).mp hq
+    exact hown t ht hvq hsq
+
+/-! non-vacuity: the hypotheses hold for the real tables and for concrete operations -/
+
+example : beamsOk (directedBeams.getD []) = true := by decide
+
+/-- a unit cube with a spline on the closing bottom edge (slot 3, 3 → 0) and an arc on side edge 1 -/
+def exPos : Nat → V3 := fun v =>
+  [⟨0, 0, 0⟩, ⟨1, 0, 0⟩, ⟨1, 1, 0⟩, ⟨0, 1, 0⟩, ⟨0, 0, 1⟩, ⟨1, 0, 1⟩, ⟨1, 1, 1⟩, ⟨0, 1, 1⟩].getD v V3.zero
+
+def exSpline : Datum := { kind := .spline, tag := 1, pts := [⟨-1/2, 3/4, 0⟩, ⟨-1/2, 1/2, 0⟩] }
+def exArc : Datum := { kind := .arc, tag := 2, third := some ⟨3/2, 0, 1/2⟩ }
+
+def exOp : ROp :=
+  { verts := [0, 1, 2, 3, 4, 5, 6, 7],
+    data := [lineDatum, lineDatum, lineDatum, exSpline, lineDatum, lineDatum, lineDatum, lineDatum,
+             lineDatum, exArc, lineDatum, lineDatum] }
+
+example : valid exPos (slotReq exOp 3) = true ∧ valid exPos (slotReq exOp 9) = true := by decide +kernel
+
+/-- the closing edge is written `spline 3 0 (…)`, the side edge `arc 1 5 (…)` -/
+example : asmEdges exPos (directedBeams.getD []) [exOp] = [⟨3, 0, exSpline⟩, ⟨1, 5, exArc⟩] := by
+  decide +kernel
+
+/-! ### faces used as given, inverted, shifted, re-oriented -/
+
+/-- **inverted**: after `Face.invert` every datum joins the same two points the other way round and
+    is reversed (spline / polyLine points flipped, angle negated), so it describes the same curve -/
+theorem T_C07_invert {α : Type} [Inhabited α] (a b c d : α) (e0 e1 e2 e3 : Datum) :
+    dconn (faceInvert (⟨[a, b, c, d], [e0, e1, e2, e3]⟩ : Face α Datum)) =
+      [flipC (c, d, e2), flipC (b, c, e1), flipC (a, b, e0), flipC (d, a, e3)] ∧
+    dconn (⟨[a, b, c, d], [e0, e1, e2, e3]⟩ : Face α Datum) = [(a, b, e0), (b, c, e1), (c, d, e2), (d, a, e3)] :=
+  ⟨rfl, rfl⟩
+
+/-- **shifted**: after `Face.shift k`, for every integer `k`, every datum joins the same two points
+    in the same direction, unchanged -/
+theorem T_C07_shift {α : Type} [Inhabited α] (f : Face α Datum) (h : Face4 f) (k : Int) :
+    (∀ x ∈ dconn (f.shift k), x ∈ dconn f) ∧ (∀ x ∈ dconn f, x ∈ dconn (f.shift k)) := by
+  obtain ⟨a, b, c, d, e0, e1, e2, e3, rfl⟩ := face4_cases h
+  rcases shift_lit a b c d e0 e1 e2 e3 k with h | h | h | h <;> rw [h] <;>
+    simp only [dconn_lit, List.mem_cons, List.not_mem_nil, or_false] <;>
+    constructor <;> intro x hx <;> rcases hx with h | h | h | h <;> subst h <;> simp
+
+/-- **re-oriented**: `Face.reorient` is a shift, whatever the distances are -/
+theorem T_C07_reorient {α : Type} [Inhabited α] (f : Face α Datum) (h : Face4 f) (dist : α → Rat) :
+    (∀ x ∈ dconn (f.reorient dist), x ∈ dconn f) ∧ (∀ x ∈ dconn f, x ∈ dconn (f.reorient dist)) :=
+  T_C07_shift f h _
+
+/-- **any sequence of calls**: the face that goes into the operation carries exactly the curves the
+    user described — each datum between its two points, either as given or, when its end points are
+    swapped, reversed -/
+theorem T_C07_face_calls (pos : Nat → V3) (f : Face Nat Datum) (h : Face4 f) (ops : List FaceOp) :
+    (∀ x ∈ dconn (applyFaceOps pos f ops), x ∈ dconn f ∨ flipC x ∈ dconn f) ∧
+    (∀ x ∈ dconn f, x ∈ dconn (applyFaceOps pos f ops) ∨ flipC x ∈ dconn (applyFaceOps pos f ops)) :=
+  (sameCurves_applyOps pos h ops).2
+
+/-- reversing twice gives the datum back; data that do not depend on direction never change -/
+theorem T_C07_reverse (d : Datum) :
+    d.reverse.reverse = d ∧ d.reverse.kind = d.kind ∧ d.reverse.tag = d.tag ∧
+      (d.kind.dirDep = false → d.reverse = d) :=
+  ⟨Datum.reverse_reverse d, Datum.reverse_kind d, Datum.reverse_tag d, Datum.reverse_of_not_dirDep d⟩
+
+example : Face4 (⟨[10, 11, 12, 13], [exSpline, lineDatum, exArc, lineDatum]⟩ : Face Nat Datum) := ⟨rfl, rfl⟩
+
+example : dconn (applyFaceOps exPos ⟨[10, 11, 12, 13], [exSpline, lineDatum, exArc, lineDatum]⟩
+    [.invert, .shift 1]) =
+    [(10, 13, lineDatum), (13, 12, exArc), (12, 11, lineDatum), (11, 10, exSpline.reverse)] := by decide +kernel
 
 end CBV.C07
